@@ -169,7 +169,8 @@ def r2_counts(ctx) -> None:
         "hugr.build.dfg.Function.declare_outputs": "_set_parent_output_count",
     }
     for q, callee in reach.items():
-        c, m = prog.method(q, own=True)
+        c, m = prog.method(q)
+        m = ctx.cfn(q, supers=True)        # the method as this class runs it (inherited body, super() calls and hooks seen through)
         ctx.check(any(call_name(x) == callee for x in calls_in(m)), "C16.R2", f"{q.split('.', 2)[2]}: updates the container's count", c.module.path, m.lineno,
                   f"once outputs are set the container handle must learn its output count (via {callee})", m)
     sp = df.methods["_set_parent_output_count"]
